@@ -152,6 +152,8 @@ type Env struct {
 	FnPIt   func(*Item) int                  // pointer parameter: accepts nil
 	FnCel   func(Celsius) float64            // parameter of a type defined from float64
 	FnI8    func(int8) int8                  // a narrow parameter: literals in its argument are retyped to int8
+	SumF    func(...float64) float64         // variadic over a numeric kind other than int
+	MS      map[string]string                // a second unnamed map type with the member names of MI
 	RevInts func([]int) []int                // reverses its argument in place (like sort.Ints) and returns it
 	FnLvl   func(Level) int                  // parameter of a type defined from int
 
@@ -261,6 +263,15 @@ func New(l *Log) *Env {
 		}
 		return xs
 	}
+	e.SumF = func(xs ...float64) float64 {
+		l.add("SumF", fmt.Sprint(xs))
+		t := 0.0
+		for _, x := range xs {
+			t += x
+		}
+		return t
+	}
+	e.MS = map[string]string{"a": "x", "foobar": "y"}
 	e.FnI8 = func(n int8) int8 { l.add("FnI8", n); return n }
 	e.FnCel = func(c Celsius) float64 { l.add("FnCel", float64(c)); return float64(c) * 2 }
 	e.FnLvl = func(v Level) int { l.add("FnLvl", int(v)); return int(v) + 1 }
